@@ -118,7 +118,12 @@ pub fn gen_raw(t: &mut Tape, o: &RawOpts) -> raw::Library {
             // distinct Layer objects may share a GDS layer number (e.g. met1 = 68/20 and via = 68/44)
             let num = if share && i > 0 && t.chance(1, 2) { prev_num } else { (i as i16) * 3 + t.draw(3) as i16 + 10 * (i as i16) };
             prev_num = num;
-            let l = raw::Layer::new(num, format!("met{}", i)).add_pairs(&[(0, Drawing), (1, Pin), (2, Label), (3, Obstruction), (4, Outline)]).unwrap();
+            let mut l = raw::Layer::new(num, format!("met{}", i)).add_pairs(&[(0, Drawing), (1, Pin), (2, Label), (3, Obstruction), (4, Outline)]).unwrap();
+            if t.chance(1, 4) {
+                // the same purpose registered under a second number (as layer maps with aliases do)
+                let p = t.pick(&[Drawing, Pin, Label, Obstruction]).clone();
+                let _ = l.add_purpose(20 + t.draw(5) as i16, p);
+            }
             keys.push(layers.add(l));
         }
     }
